@@ -301,7 +301,11 @@ var progressFile string
 func runLate(o *vh.Opts, sum *vh.Summary, cw *vh.CaseWriter) {
 	dir := filepath.Join(o.Out, "late")
 	_ = os.MkdirAll(dir, 0o755)
-	cmd := exec.Command(os.Args[0], "-part", "late", "-seed", fmt.Sprint(o.Seed), "-tier", o.Tier, "-out", dir)
+	args := []string{"-part", "late", "-seed", fmt.Sprint(o.Seed), "-tier", o.Tier, "-out", dir}
+	if o.Replay != "" {
+		args = append(args, "-replay", o.Replay)
+	}
+	cmd := exec.Command(os.Args[0], args...)
 	out, err := cmd.CombinedOutput()
 	b, rerr := os.ReadFile(filepath.Join(dir, "summary.json"))
 	var child vh.Summary
@@ -508,6 +512,22 @@ func main() {
 	if *raceOnly {
 		runRace()
 	}
+	if *part == "late" && o.Replay != "" {
+		// child process replaying one reader case
+		rc, _ := readerReplay(o.Replay)
+		in, _ := hex.DecodeString(rc.InputHex)
+		drains := map[int]bool{}
+		for _, k := range rc.Drains {
+			drains[k] = true
+		}
+		idr.VerifResetNodePool()
+		progressFile = filepath.Join(o.Out, "current.json")
+		auditTransform(sum, cw, rc.Format, rc.Schema, in, "replay", drains)
+		cw.Flush()
+		sum.CaseFiles = cw.Files
+		sum.Write(o)
+		return
+	}
 	if *part == "late" {
 		// child process: a broken node API can make the readers build cyclic trees on which the
 		// library recurses until the Go runtime kills the process; the parent then reports the
@@ -523,16 +543,9 @@ func main() {
 		return
 	}
 	if o.Replay != "" {
-		if rc, ok := readerReplay(o.Replay); ok {
-			// replay of a reader failure: that transform only
-			in, _ := hex.DecodeString(rc.InputHex)
-			drains := map[int]bool{}
-			for _, k := range rc.Drains {
-				drains[k] = true
-			}
-			idr.VerifResetNodePool()
-			auditTransform(sum, cw, rc.Format, rc.Schema, in, "replay", drains)
-			cw.Flush()
+		if _, ok := readerReplay(o.Replay); ok {
+			// replay of a reader failure: that transform only, in a child process
+			runLate(o, sum, cw)
 			sum.CaseFiles = cw.Files
 			sum.Write(o)
 			return
